@@ -51,14 +51,16 @@ def opTopo (inp imp : Json) : Except String Json := do
     | .ok l => some l
     | .error _ => none
   let bound := univ.length + 1
+  -- the harness compares the dependency table the object holds with the one it was told to hold
+  let recorded := !(imp.getObjVal? "table_mismatch").toOption.isSome
   let orM := topoOracle deps types model bound
   let orI := match implSorted with
     | some l => topoOracle deps types l bound
     | none => [("nopanic", false)]
   pure <| obj [
     ("model", obj [("sorted", jSs model)]),
-    ("agree", jb (implSorted == some model && !st.exhausted)),
-    ("oracle_impl", obj (orI.map fun p => (p.1, jb p.2))),
+    ("agree", jb (implSorted == some model && !st.exhausted && recorded)),
+    ("oracle_impl", obj ((orI ++ [("recorded", recorded)]).map fun p => (p.1, jb p.2))),
     ("oracle_model", obj (orM.map fun p => (p.1, jb p.2))),
     ("nontrivial", jb (tbl.any (fun p => p.2.length ≥ 1) && univ.length ≥ 2))]
 
